@@ -69,9 +69,12 @@ def check(ctx):
     ctx.inst('R1', sw, 'r:function', B_.is_input_field(fb, 0, 6, 'b1', 0) and all(b == 0 for b in fb[6:]) and norm(rst['self.function'].func) == 'CPXFunction', 'function read as %s' % B_.describe(fb, 8))
     ctx.inst('R1', sw, 'r:version', B_.is_input_field(vb, 0, 2, 'b1', 6) and all(b == 0 for b in vb[2:]), 'version read as %s' % B_.describe(vb, 8))
     lpn = rst.get('self.lastPacket')
-    ok = isinstance(lpn, ast.Compare) and isinstance(lpn.ops[0], ast.NotEq) and 0 in (fold_in(sw, lpn.comparators[0]), fold_in(sw, lpn.left))
+    # `(flags & 0x40) != 0` in any spelling: one fact "<masked> == 0" that is false when the flag is set
+    from ..cfg import implied as _implied
+    fs = _implied(lpn, True) if lpn is not None else []
+    ok = len(fs) == 1 and fs[0].op == '==' and fs[0].pol is False and 0 in (fold_in(sw, fs[0].left), fold_in(sw, fs[0].right))
     if ok:
-        lb = B_.evaluate(lpn.comparators[0] if fold_in(sw, lpn.left) == 0 else lpn.left, sc2, rin, rw)
+        lb = B_.evaluate(fs[0].right if fold_in(sw, fs[0].left) == 0 else fs[0].left, sc2, rin, rw)
         ok = lb[6] == ('in', 'b0', 6) and all(b == 0 for i, b in enumerate(lb) if i != 6)
     ctx.inst('R1', sw, 'r:last-packet', ok, 'last-packet read from bit 6 of byte 0')
     ctx.inst('R1', sw, 'r:payload', norm(rst.get('self.data')) == '%s[2:]' % d and norm(rst.get('self.length')) == 'len(self.data)', 'payload = data[2:], length = len(payload)')
